@@ -263,9 +263,7 @@ func c05ConnectFailCase(version, refuse string, status int) (obs, sig, msg strin
 		x.Close() // what the server keeps of a client that went away is its own business (idle timeout)
 	}
 	synctest.Wait()
-	c.mu.Lock()
-	nc := len(c.sessions)
-	c.mu.Unlock()
+	nc, _ := privClientSessionCount(c)
 	if nc != 0 {
 		return fail("session-not-removed", "Connect returned %v; the client still tracks %d session(s)", err, nc)
 	}
